@@ -2009,3 +2009,8 @@ package ice
 //@ func (*DictionaryIterator).Next
 //@   at call:(github.com/blevesearch/vellum.Iterator).Current#0 ghostset dio = result1
 //@   at call:(*PostingsList).read#0 lemma[C08] postingsOffset == dio
+//@
+//@ // ---- C03/C06: the byte-copy path re-adds EVERY record of every source block: a block is left
+//@ // only when its decompressed bytes are used up ----
+//@ func (*Segment).copyStoredDocs
+//@   at loopexit#1 lemma[C03,C06] storedOffset >= len(uncompressed)
